@@ -40,6 +40,7 @@ pub struct Inner {
     pub calls: usize,
     pub flushed: bool,
     pub faults_hit: usize,
+    pub len_at_flush: Option<usize>,
 }
 
 #[derive(Clone)]
@@ -86,6 +87,7 @@ impl io::Write for ScriptedSink {
             Some(k) => Err(io::Error::new(kind_of(k), "scripted flush")),
             None => {
                 s.flushed = true;
+                s.len_at_flush = Some(s.held.len());
                 Ok(())
             }
         }
@@ -100,6 +102,7 @@ pub fn new_sink(prefill: &[u8], script: Vec<Resp>, flush: Option<u64>) -> Script
         calls: 0,
         flushed: false,
         faults_hit: 0,
+        len_at_flush: None,
     })))
 }
 
@@ -206,10 +209,12 @@ pub fn cmd_sink(r: &mut Runner, t: &[&str]) -> String {
         // C11: success only if everything was accepted and flushed
         r.check(h.flushed, || format!("C11 finish ok without a successful flush: {}", line));
         r.check(h.faults_hit == 0, || format!("C11 finish ok although the sink failed: {}", line));
+        // C07/C11: everything the sink holds was handed over before the final flush
+        r.check(h.len_at_flush == Some(h.held.len()), || format!("C07 C11 {} byte(s) reached the sink after the last flush: {}", h.held.len() - h.len_at_flush.unwrap_or(0), line));
         if let Some(want) = vec_build(ty, &calls) {
             let held = &h.held[prefill.len()..];
             r.check(held == &want[..], || {
-                format!("C07 sink holds {} want {} : {}", show_bytes(held), show_bytes(&want), line)
+                format!("C07 C09 C15 sink holds {} want {} : {}", show_bytes(held), show_bytes(&want), line)
             });
             let opened = raw::Fst::new(held.to_vec());
             let ok = match opened {
